@@ -194,7 +194,7 @@ def gen_case(rng, pid, tier):
                     ops.append(['refinish', i])
             elif x < 0.35:
                 # a fault inside the clean-up (an `ipset` / unlink call fails), possibly twice, before the retry
-                ops.append(['cutfinish', i, rng.choice(['dns', 'late', 'vanish'] + [rng.randrange(0, 14)] * 4)])
+                ops.append(['cutfinish', i, rng.choice(['dns', 'late', 'vanish', 'reply'] + [rng.randrange(0, 14)] * 4)])
                 if rng.random() < 0.3:
                     ops.append(['cutfinish', i, rng.choice(['dns'] + [rng.randrange(0, 14)] * 4)])
             elif x < 0.42 and conts[i]['mode'] == 'direct':
@@ -366,7 +366,35 @@ class _NetClient:
     def get(self, uniq):
         r = self.env.nets.get(uniq)
         self.env.net_get.append(None if r is None else (r['vip'], r['external_ip']))
-        return None if r is None else dict(r)
+        # through the REAL client (services._base_service.ResourceServiceClient.get / wait) on a request
+        # directory holding the service's reply, so that its reading of reply.yml is part of what runs
+        import io as _io
+        import yaml as _yaml
+        from treadmill.services import _base_service as bs
+        cdir = self.env.client_dir
+        svc = mock.Mock()
+        svc.name = 'network'
+        real = bs.ResourceServiceClient(svc, cdir)
+        req = real._req_dirname(uniq)           # pylint: disable=protected-access
+        shutil.rmtree(req, ignore_errors=True)
+        if r is not None:
+            os.makedirs(req)
+            with open(os.path.join(req, bs.REP_FILE), 'w') as f:
+                _yaml.safe_dump(dict(r), f)
+        if r is not None and getattr(self.env, 'reply_fault', False):
+            # the reply is there but cannot be read this time (EIO): the finish attempt must fail - the network
+            # is NOT "already freed" - and be retried
+            self.env.reply_fault = False
+            self.env.cut_hit = True
+            real_open = _io.open
+
+            def failing_open(path, *a, **kw):
+                if str(path).endswith(bs.REP_FILE):
+                    raise OSError(errno.EIO, 'harness: injected read error', path)
+                return real_open(path, *a, **kw)
+            with mock.patch.object(bs.io, 'open', failing_open):
+                return real.get(uniq)
+        return real.get(uniq)
 
     def delete(self, uniq):
         if not self.env.keep_alloc:
@@ -437,6 +465,8 @@ def _run_impl(case, root):
     conts = case['containers']
     ext = case.get('ext', '10.1.1.1')
 
+    env.client_dir = os.path.join(root, 'netclient')
+    os.makedirs(env.client_dir)
     apps_dir = os.path.join(root, 'apps')
     rules_dir = os.path.join(root, 'rules')
     eps_dir = os.path.join(root, 'endpoints')
@@ -718,6 +748,16 @@ def _run_impl(case, root):
         env.rule_log = []
         env.net_get = []
         env.keep_alloc = keep
+        if cut == 'reply':
+            # the network service's reply cannot be read when the clean-up starts: nothing was removed yet, which is
+            # a cut before the first removal
+            cut = 0
+            env.cut = None
+            env.reply_fault = True
+            env.cut_hit = False
+            reply_cut = True
+        else:
+            reply_cut = False
         if cut == 'vanish':
             # for the network this is a complete finish: every spec of the container is gone at the end
             cut = None
@@ -733,9 +773,10 @@ def _run_impl(case, root):
         if cut == 'dns':                   # nothing was removed yet, which is a cut before the first removal
             cut = 0
             env.cut = None
-        else:
+        elif not reply_cut:
             env.cut = cut
-        env.cut_hit = False
+        if not reply_cut:
+            env.cut_hit = False
         before = snapshot()
         man = manifests.get(i)
         raised = None
@@ -747,9 +788,10 @@ def _run_impl(case, root):
                 app = utils.to_obj(man)
                 if hasattr(app, 'shared_network') and not app.shared_network:
                     _finish._cleanup_network(tm_env, os.path.join(cdir, 'data'), app, netclient)
-        except (OSError, KeyError, ValueError, TypeError, AttributeError) as err:
+        except (OSError, KeyError, ValueError, TypeError, AttributeError, NameError) as err:
             raised = '%s:%s' % (type(err).__name__, getattr(err, 'errno', ''))
         finally:
+            env.reply_fault = False
             env.keep_alloc = False
             env.cut = None
             env.dns_fail = False
@@ -766,6 +808,11 @@ def _run_impl(case, root):
             # a fault at the (cut+1)-th removal call.  Nothing is expected of the state yet: the container stays
             # 'started' and the next complete finish has to remove everything; what belongs to others is untouched
             run.tags.add('cut-hit')
+            if raised is None and t is not None and t['state'] == 'started' and (t['created'] & after):
+                # the finish returned normally although a step failed and entries of the container are still
+                # registered: its caller takes the container for finished and nothing will remove them
+                hits.append(fw.Hit(clause='finish-succeeded-with-leftovers', call_site='_cleanup_network(interrupted)',
+                                   detail='%s: %r' % (uniq, sorted(t['created'] & after)[:4])))
             if t is not None:
                 others_b = frozenset(e for e in before if not belongs(e, i))
                 others_a = frozenset(e for e in after if not belongs(e, i))
@@ -779,7 +826,7 @@ def _run_impl(case, root):
             an = env.net_get[0] if env.net_get else None
             line = ('cutfinish %d ' % cut) + tokens(man, spec['pid'], pass_order('u'))
             # (the injected fault itself is expected to surface; any other exception is reported)
-            other = raised is not None and not (env.cut_hit and raised in ('OSError:%d' % errno.EIO, 'gaierror:-2'))
+            other = raised is not None and not (env.cut_hit and raised in ('OSError:%d' % errno.EIO, 'gaierror:-2', 'UnboundLocalError:'))
             run.op(line, '%san=%s ptok=1 live=%s %s' % ('RAISED=%s ' % raised if other else '',
                                                        'none' if an is None else '%s:%s' % an, show_live(), show_state()))
             return
